@@ -72,7 +72,7 @@ type SliceVal struct {
 	Elem types.Type
 	ESrt string
 	Own  Own // ownership class when Obj == nil
-	viewOf string  // the backing array term the view was taken of (the view is stale once the array is written)
+
 	View string    // optional: an array term equal to the window shifted to position 0 (View[k] == Arr[Off+k]); element
 	// reads go through it so that quantified facts are matched on (select View k) rather than on an arithmetic pattern
 	From *fieldLoc // the heap field this value slice was read from (writes through it are allowed when the owning
